@@ -59,6 +59,13 @@ func c18Units(tier string) []*Unit {
 		{Name: "root", Deps: []Ref{{Task: "sub", Vars: [][2]string{{"X", "one"}}}, {Task: "sub", Vars: [][2]string{{"X", "two"}}}}},
 		{Name: "sub", Cmds: []C{{Defer: true, Extra: "{{.X}}"}, {Extra: "{{.X}}"}}},
 	}}, vlab.Options{})
+	// a failing run: once task called from two tasks that ignore the error
+	add("once-failing-two-callers", &Prog{Tasks: []*T{
+		{Name: "root", Deps: []Ref{D("a"), D("b")}},
+		{Name: "a", IgnoreError: true, Cmds: []C{CallS("s", "=")}},
+		{Name: "b", IgnoreError: true, Cmds: []C{CallS("s", "=")}},
+		{Name: "s", Run: "once", Cmds: []C{F()}},
+	}}, vlab.Options{})
 	// parallel for-loop over deps with a matrix whose rows are references
 	add("matrix-ref-parallel-deps", &Prog{Tasks: []*T{
 		{Name: "root", Deps: []Ref{
@@ -101,8 +108,19 @@ func c18Units(tier string) []*Unit {
 	for _, e := range es {
 		bound := 1
 		maxW := 6
+		dedicated := map[string]bool{"defer-same-task-parallel": true, "matrix-ref-parallel-deps": true, "dynvars-parallel": true,
+			"once-failing-two-callers": true, "c17-executor-group": true, "c17-executor-prefixed": true, "reader-sibling-includes": true}
+		heavy := map[string]bool{"c01-twolevel-cancel": true, "c01-nested-call-in-dep-N1": true, "c07-fail-nested-N2": true}
+		switch {
+		case dedicated[e.name]:
+			bound = 2 // the small dedicated scenarios go one preemption deeper
+			maxW = 5
+		case heavy[e.name]:
+			bound = 0
+			maxW = 9
+		}
 		if tier == "thorough" {
-			bound = 2
+			bound++
 		}
 		sc := e.sc
 		sc.Name = e.name
